@@ -241,6 +241,9 @@ func (m *Message) toProto(need func(string)) (*descriptorpb.DescriptorProto, err
 			Label:    descriptorpb.FieldDescriptorProto_LABEL_OPTIONAL.Enum(),
 			JsonName: proto.String(JSONName(f.Name)),
 		}
+		if f.JSONName != "" {
+			fp.JsonName = proto.String(f.JSONName)
+		}
 		if f.TypeName != "" {
 			fp.TypeName = proto.String(f.TypeName)
 			if f.TypeName == ".google.protobuf.Timestamp" {
@@ -614,6 +617,14 @@ func (s *Service) toProto(need func(string)) *descriptorpb.ServiceDescriptorProt
 		sp.Method = append(sp.Method, mp)
 	}
 	return sp
+}
+
+// JSON is the field's JSON name: the explicit json_name when one is set, protoc's derivation otherwise.
+func (f *Field) JSON() string {
+	if f.JSONName != "" {
+		return f.JSONName
+	}
+	return JSONName(f.Name)
 }
 
 // JSONName is protoc's JSON name derivation.
